@@ -54,5 +54,5 @@ Next == IF WalkDepth > 0 /\ Len(vhist) >= WalkDepth THEN EmitWalk
         ELSE ((WalkDepth > 0 \/ Len(vchain) <= GenMaxLen) /\ Step)
 GView == vchain
 
-ASSUME PrintT("CASE " \o ToJson([kind |-> "world", names |-> WorldNames, archives |-> StdWorld]))
+ASSUME PrintT("CASE " \o ToJson([kind |-> "world", names |-> WorldNames, archives |-> StdWorld, fmt |-> StdFormat]))
 =============================================================================
